@@ -11,6 +11,9 @@ const L_PRELUDE: &str = "f = |a, b = 0, c = 0, d = 0, e = 0| (a, b, c, d, e)\nms
 /// classes the unchanged tree (/repo at e003922) does not accept
 const LAYOUT_NOT_ACCEPTED: &[(&str, &str)] = &[
     ("closer:index", "consume_index_expression parses with a restricted context: no line break inside `l[…]` (not a documented layout)"),
+    ("free-call:index-expression", "consume_index_expression parses with a restricted context: no paren-free call inside `l[…]`"),
+    ("chain-after:F-C10-12", "F-C10-12: after a multi-line parenthesised argument list the next chain link must be deeper than the line of the `)`"),
+    ("header:F-C10-4", "F-C10-4: the body must be deeper than the header's LAST line (parse_indented_block measures against the line the header ends on); reported as an indentation error on a complete program"),
     ("match-pos:closer-after-block-body", "parse_indented_block: the last line of an indented block ends at a line break — a closing bracket directly after it is refused for every kind of block (if, function, arm body); uniform, not a documented layout"),
 ];
 
@@ -82,10 +85,15 @@ impl Ctx {
         match &verdict {
             Verdict::Fine => {}
             Verdict::Rejected(i, msg) => {
+                if *i {
+                    // second sentence of the property: a complete, accepted program's layout variant
+                    // is never reported as an indentation error
+                    self.rep.bump(if not_asserted { "complete-program-indentation-error:attributed-to-known-finding" } else { "complete-program-indentation-error:UNLISTED" });
+                }
                 if !not_asserted {
                     self.fail(
                         "D",
-                        "C10:variant-rejected:layout-stream",
+                        if *i { "C10:complete-program-indentation-error:layout-stream" } else { "C10:variant-rejected:layout-stream" },
                         json!({"input": var, "base": base, "class": class, "error": msg, "is_indentation_error": i,
                                "note": "a line-breaking layout accepted by the unchanged tree is rejected"}),
                     );
@@ -117,6 +125,10 @@ impl Ctx {
             self.map_key_forms(rng, &mut m);
             self.tuple_bodies(rng, &mut m);
             self.match_switch_positions(rng, &mut m);
+            self.header_breaks(rng, &mut m);
+            self.multi_assign_results(rng, &mut m);
+            self.free_call_positions(rng, &mut m);
+            self.chain_after_multiline(rng, &mut m);
         }
         if let Some(m) = m {
             for (k, (tot, ok, sample)) in &m {
